@@ -250,6 +250,20 @@ def oracle(case, out):
             return ("sigalg-changed", "a caller-supplied alg (%s) was replaced (%s)" % (supplied, merged))
         if merged is None:
             return ("sigalg-unrecorded", "a signature was prepared without any alg in the merged header")
+    if f[0] == "encalg" and out != "ERR" and "\tIV=" in out:
+        parts = dict(x.split("=", 1) for x in out.split("\t"))
+        if parts.get("RT") == "FAIL":
+            return ("encalg-product-does-not-decrypt", "the object produced by jose_jwe_enc_cek_io does not decrypt under the header it carries (the algorithm applied is not the one the merged header names)")
+        try:
+            pj = json.loads(parts["P"]) if parts["P"] != "null" else {}
+            uj = json.loads(parts["U"]) if parts["U"] != "-" else {}
+            enc = first(pj.get("enc") if isinstance(pj, dict) else None, uj.get("enc") if isinstance(uj, dict) else None)
+            if isinstance(enc, str) and enc.startswith("A") and parts.get("IV") not in (None, "MAX"):
+                want_iv = "12" if enc.endswith("GCM") else "16"
+                if parts["IV"] != want_iv:
+                    return ("encalg-applied-differs-from-header", "the merged header names enc=%s but an IV of %s octets was generated (another algorithm was applied)" % (enc, parts["IV"]))
+        except Exception:
+            pass
     if f[0] == "sigmulti":
         # metamorphic: one template over several keys = each key signed on its own with (a copy of) the template,
         # and the caller's template is not modified
